@@ -151,18 +151,19 @@ pub fn utxo_term(utxos: &UTxOs, bwits: &[byron::Twit]) -> String {
 pub fn env_term(env: &Environment) -> String {
     let d = "0";
     let pp = match &env.prot_params {
-        PP::Byron(p) => format!("(Build_params 0 0 0 {} 0 0 0 0 0 0 0 0 0 false false false {} {})", p.max_tx_size, p.summand, p.multiplier),
-        PP::Shelley(p) => format!("(Build_params 1 {} {} {} {} {} {} 0 0 0 0 0 0 false false false 0 0)", p.minfee_a, p.minfee_b, p.max_transaction_size, p.min_utxo_value, p.key_deposit, p.pool_deposit),
-        PP::Alonzo(p) => format!("(Build_params 4 {} {} {} 0 {} {} {} {} {} {} {} {} false false false 0 0)", p.minfee_a, p.minfee_b, p.max_transaction_size, p.key_deposit, p.pool_deposit,
+        PP::Byron(p) => format!("(Build_params 0 0 0 {} 0 0 0 0 0 0 0 0 0 false false false {} {} 0 0)", p.max_tx_size, p.summand, p.multiplier),
+        PP::Shelley(p) => format!("(Build_params 1 {} {} {} {} {} {} 0 0 0 0 0 0 false false false 0 0 {} {})", p.minfee_a, p.minfee_b, p.max_transaction_size, p.min_utxo_value, p.key_deposit, p.pool_deposit, p.min_pool_cost, p.maximum_epoch),
+        PP::Alonzo(p) => format!("(Build_params 4 {} {} {} 0 {} {} {} {} {} {} {} {} false false false 0 0 0 0)", p.minfee_a, p.minfee_b, p.max_transaction_size, p.key_deposit, p.pool_deposit,
             p.ada_per_utxo_byte, p.max_value_size, p.collateral_percentage, p.max_collateral_inputs, p.max_tx_ex_units.mem, p.max_tx_ex_units.steps),
-        PP::Babbage(p) => format!("(Build_params 5 {} {} {} 0 {} {} {} {} {} {} {} {} false false false 0 0)", p.minfee_a, p.minfee_b, p.max_transaction_size, p.key_deposit, p.pool_deposit,
+        PP::Babbage(p) => format!("(Build_params 5 {} {} {} 0 {} {} {} {} {} {} {} {} false false false 0 0 0 0)", p.minfee_a, p.minfee_b, p.max_transaction_size, p.key_deposit, p.pool_deposit,
             p.ada_per_utxo_byte, p.max_value_size, p.collateral_percentage, p.max_collateral_inputs, p.max_tx_ex_units.mem, p.max_tx_ex_units.steps),
-        PP::Conway(p) => format!("(Build_params 6 {} {} {} 0 {} {} {} {} {} {} {} {} {} {} {} 0 0)", p.minfee_a, p.minfee_b, p.max_transaction_size, p.key_deposit, p.pool_deposit,
+        PP::Conway(p) => format!("(Build_params 6 {} {} {} 0 {} {} {} {} {} {} {} {} {} {} {} 0 0 0 0)", p.minfee_a, p.minfee_b, p.max_transaction_size, p.key_deposit, p.pool_deposit,
             p.ada_per_utxo_byte, p.max_value_size, p.collateral_percentage, p.max_collateral_inputs, p.max_tx_ex_units.mem, p.max_tx_ex_units.steps,
             coq_bool(p.cost_models_for_script_languages.plutus_v1.is_some()), coq_bool(p.cost_models_for_script_languages.plutus_v2.is_some()), coq_bool(p.cost_models_for_script_languages.plutus_v3.is_some())),
-        _ => format!("(Build_params 9 {d} {d} {d} {d} {d} {d} {d} {d} {d} {d} {d} {d} false false false {d} {d})"),
+        _ => format!("(Build_params 9 {d} {d} {d} {d} {d} {d} {d} {d} {d} {d} {d} {d} false false false {d} {d} {d} {d})"),
     };
-    format!("(Build_env {} {} {} {} {})", pp, env.prot_magic, env.block_slot, env.network_id, coq_bool(env.acnt.is_some()))
+    format!("(Build_env {} {} {} {} {} {} {})", pp, env.prot_magic, env.block_slot, env.network_id, coq_bool(env.acnt.is_some()),
+            env.acnt.as_ref().map(|a| a.treasury).unwrap_or(0), env.acnt.as_ref().map(|a| a.reserves).unwrap_or(0))
 }
 fn inref_list(l: &[pallas_traverse::MultiEraInput]) -> String { coq_list(l, |i| format!("({},{})", zh(i.hash().as_ref()), i.index())) }
 fn ed_ok(vk: &[u8], sig: &[u8], msg: &[u8]) -> bool {
@@ -172,7 +173,7 @@ fn ed_ok(vk: &[u8], sig: &[u8], msg: &[u8]) -> bool {
 }
 struct Flags { coll: bool, refs: bool, vk: bool, nat: bool, v1: bool, v2: bool, v3: bool, dat: bool, red: bool, reqs: bool, mint: bool }
 
-pub fn tx_term(tx: &AnyTx, metx: &MultiEraTx, utxos: &UTxOs, env: &Environment, obs: &Obs) -> String {
+pub fn tx_term(tx: &AnyTx, metx: &MultiEraTx, utxos: &UTxOs, env: &Environment, obs: &Obs, cs: &pallas_validate::utils::CertState, counts: Option<(u64, u64, u64)>) -> String {
     let none = "None".to_string();
     if let AnyTx::Byron(p) = tx {
         let t = &p.transaction;
@@ -187,7 +188,7 @@ pub fn tx_term(tx: &AnyTx, metx: &MultiEraTx, utxos: &UTxOs, env: &Environment, 
             }
             None => "(1,0,0,false)".into(),
         }).collect();
-        return format!("(Build_tx 0 {} [{}] [] 0 None None None None None None None None None None None [] None None None None None None None None None (Ok tt) 0 0 0 {} [{}])",
+        return format!("(Build_tx 0 {} [{}] [] 0 None None None None None None None None None None None [] None None None None None None None None None None (Build_cstate [] [] [] [] [] [] []) None {} [{}])",
             obs.size, ins.join(";"), coq_list(&t.outputs.iter().collect::<Vec<_>>(), |o| o.amount.to_string()), wits.join(";"));
     }
     let (era, conway_tx) = match tx { AnyTx::AC(_, Era::Shelley) => (1, false), AnyTx::AC(_, Era::Allegra) => (2, false), AnyTx::AC(_, Era::Mary) => (3, false), AnyTx::AC(..) => (4, false), AnyTx::Babbage(_) => (5, false), _ => (6, true) };
@@ -272,9 +273,11 @@ pub fn tx_term(tx: &AnyTx, metx: &MultiEraTx, utxos: &UTxOs, env: &Environment, 
     let reds: Vec<String> = metx.redeemers().iter().map(|r| { let ex = r.ex_units();
         let tag = match r.tag() { conway::RedeemerTag::Spend => 0, conway::RedeemerTag::Mint => 1, conway::RedeemerTag::Cert => 2, conway::RedeemerTag::Reward => 3, conway::RedeemerTag::Vote => 4, conway::RedeemerTag::Propose => 5 };
         format!("(Build_redeemer {} {} {} {})", tag, r.index(), ex.mem, ex.steps) }).collect();
-    let certs = obs.checks.iter().find(|c| c.0 == "check_certificates").map(|c| c.1.coq()).unwrap_or("(Ok tt)".into());
+    let certs = match tx { AnyTx::AC(t, _) if era <= 3 => super::vcert::certs_term(&t.transaction_body.certificates), _ => "None".to_string() };
+    let cstate = if era <= 3 { super::vcert::cstate_term(cs) } else { "(Build_cstate [] [] [] [] [] [] [])".to_string() };
+    let counts_t = match counts { Some((a, b, c)) if era <= 3 => format!("(Some ({},{},{}))", a, b, c), _ => "None".to_string() };
     let j = |v: &Vec<String>| format!("[{}]", v.join(";"));
-    format!("(Build_tx {} {} {} {} {} {} {} {} {} {} {} {} {} {} {} {} {} {} {} {} {} {} {} {} {} {} {} {} {} {} [] [])",
+    format!("(Build_tx {} {} {} {} {} {} {} {} {} {} {} {} {} {} {} {} {} {} {} {} {} {} {} {} {} {} {} {} {} [] [])",
         era, obs.size, inref_list(&metx.inputs()), coq_list(&metx.outputs(), |o| tout_term(o, conway_tx)), metx.fee().unwrap_or(0),
         coq_opt(&metx.ttl(), |v| v.to_string()), coq_opt(&metx.validity_start(), |v| v.to_string()), coq_opt(&mint, |m| m.clone()),
         opt(f.coll, inref_list(&metx.collateral())), coq_opt(&metx.collateral_return(), |o| tout_term(o, conway_tx)), coq_opt(&metx.total_collateral(), |v| v.to_string()),
@@ -282,5 +285,5 @@ pub fn tx_term(tx: &AnyTx, metx: &MultiEraTx, utxos: &UTxOs, env: &Environment, 
         coq_opt(&aux_hash, |h| zh(h)), coq_opt(&aux_actual, |h| zh(h)), coq_opt(&sdh, |h| zh(h)), coq_list(&sdh_expected, |h| zh(h)),
         opt(f.reqs, coq_list(&reqs, |h| zh(h))), coq_opt(&wdls, |w| w.clone()),
         opt(f.vk, j(&vkeys)), opt(f.nat, j(&native)), opt(f.v1, j(&v1)), opt(f.v2, j(&v2)), opt(f.v3, j(&v3)), opt(f.dat, j(&datums)), opt(f.red, j(&reds)),
-        certs, obs.counts.0, obs.counts.1, obs.counts.2)
+        certs, cstate, counts_t)
 }
